@@ -223,8 +223,43 @@ impl WorkerState for W {
 
 impl W {
     fn check_program(&mut self, prog: &Program, case: &Case, render: bool) -> Outcome {
+        check_program_with(&self.rt, self.kind, prog, None, case, render)
+    }
+}
+
+/// Run `prog` (compiled from `src_override` if given, else from its minimal-parentheses
+/// rendering) on the input vectors of `case` and compare with the reference interpreter.
+pub fn check_program_with(
+    rt: &Runtime<NoCtx>,
+    kind: Kind,
+    prog: &Program,
+    src_override: Option<String>,
+    case: &Case,
+    render: bool,
+) -> Outcome {
+    let this = Shim { kind, rt };
+    this.check(prog, src_override, case, render)
+}
+
+struct Shim<'a> {
+    kind: Kind,
+    rt: &'a Runtime<NoCtx>,
+}
+
+impl Shim<'_> {
+    fn check(&self, prog: &Program, src_override: Option<String>, case: &Case, render: bool) -> Outcome {
         let empty: Vec<u8> = Vec::new();
-        let (src, compiled) = compile_program(&self.rt, prog, Parens::Minimal);
+        let (src, compiled) = match src_override {
+            None => compile_program(self.rt, prog, Parens::Minimal),
+            Some(text) => {
+                let r = crate::host::compile(self.rt, &text).and_then(|mut pkg| {
+                    let main = &prog.funcs[0];
+                    let f = get_main(&mut pkg, &main.ret, !main.params.is_empty())?;
+                    Ok((pkg, f))
+                });
+                (text, r)
+            }
+        };
         let (pkg, mainf) = match compiled {
             Ok(x) => x,
             Err(e) => {
